@@ -22,7 +22,7 @@ RULE = (
     "differences at relative steps 1e-4 and 1e-5 (both must agree, else inconclusive). distinct = configurations with a non-zero gradient"
 )
 REQUIRED_COVER = ["kind:channel_g", "kind:radius_unequal_groups", "kind:length", "kind:axial_resistivity", "kind:capacitance", "kind:init_v_singular",
-                  "kind:init_gate", "kind:synapse_g", "kind:init_syn_state", "kind:ball_geometry", "kind:data_stimulate", "kind:data_set", "scheme:crank_nicolson",
+                  "kind:init_gate", "kind:synapse_g", "kind:init_syn_state", "kind:ball_geometry", "kind:chunked_with_surplus_steps", "kind:data_stimulate", "kind:data_set", "scheme:crank_nicolson",
                   "backend:jaxley.thomas", "backend:jax.sparse", "ckpt:exact", "ckpt:over", "nonzero_gradient"]
 ASSUMPTIONS = [
     "runs are 5 steps long; losses are weighted quadratic forms of the recordings",
@@ -63,6 +63,10 @@ KINDS = {
     "comp:ball_length": ("comp_hh", {"mode": "train", "calls": [("self", "length")], "geom": [("self", 10.0)]}),
     "cell:ball_soma": ("cell_hh_leak", {"mode": "train", "calls": [("b0c0", "radius"), ("b0c0", "length")], "geom": [("b0c0", 8.0)]}),
     "net:ball_postsynaptic": ("net_syn", {"mode": "train", "calls": [("postI", "radius"), ("postI", "length")], "geom": [("postI", 6.0)]}),
+    # ---- chunked simulation: the loss reads the recordings of a SECOND integrate call that continues from the states returned by a
+    # first call whose checkpoint layout is longer than its run (surplus steps are masked): gradients must flow through the hand-over
+    "cell:chunked_over": ("cell_hh_leak", {"mode": "train", "calls": [("b0", "HH_gNa"), ("ball", "radius")], "chunked": [2, 2]}),
+    "cell:chunked_exact": ("cell_hh_leak", {"mode": "train", "calls": [("b0", "HH_gNa"), ("ball", "radius")], "chunked": [3, 1]}),
     # ---- network
     "net:synapse_g": ("net_syn", {"mode": "train", "calls": [("Iono", "IonotropicSynapse_gS")]}),
     "net:synapse_g_edge": ("net_syn", {"mode": "train", "calls": [("Test_e0", "TestSynapse_gC")]}),
@@ -76,6 +80,7 @@ COVER_OF_KIND = {
     "channel_g": "kind:channel_g", "radius_unequal_groups": "kind:radius_unequal_groups", "length": "kind:length",
     "axial_resistivity": "kind:axial_resistivity", "capacitance": "kind:capacitance", "init_v_singular": "kind:init_v_singular",
     "init_v": "kind:init_v_singular", "init_gate": "kind:init_gate", "synapse_g": "kind:synapse_g", "synapse_g_edge": "kind:synapse_g",
+    "chunked_over": "kind:chunked_with_surplus_steps", "chunked_exact": "kind:chunked",
     "ball_radius": "kind:ball_geometry", "ball_length": "kind:ball_geometry", "ball_soma": "kind:ball_geometry", "ball_postsynaptic": "kind:ball_geometry",
     "init_syn_state": "kind:init_syn_state", "data_stimulate": "kind:data_stimulate", "data_set": "kind:data_set", "data_set_radius": "kind:data_set",
 }
@@ -159,9 +164,18 @@ def run_config(kind, scheme, backend, ckname):
                 i += n
             return out_
 
-        def loss(theta):
-            rec = jx.integrate(m, params=unflat(theta), **kw)
-            return jnp.sum(W * (rec + 60.0) ** 2)
+        if "chunked" in spec:
+            kw1 = dict(kw, checkpoint_lengths=list(spec["chunked"]), t_max=2 * DT + DT / 2, return_states=True)  # 3 steps
+
+            def loss(theta):
+                p = unflat(theta)
+                rec1, st = jx.integrate(m, params=p, **kw1)
+                rec2 = jx.integrate(m, params=p, all_states=st, **kw)
+                return jnp.sum(W[:, :4] * (rec1 + 60.0) ** 2) + jnp.sum(W * (rec2 + 60.0) ** 2)
+        else:
+            def loss(theta):
+                rec = jx.integrate(m, params=unflat(theta), **kw)
+                return jnp.sum(W * (rec + 60.0) ** 2)
     elif spec["mode"] == "data_stim":
         flat0 = np.asarray([1.0])
 
